@@ -298,6 +298,16 @@ fn xlsx_end_to_end(tier: Tier, seed: u64, idx: u64, of: u64, stats: &mut Stats) 
                             if let Ok((true, o, _)) = run(&args) { if count_rows(&o).len() != w_both { fail(stats, format!("{}: {} rows, expected {w_both} (the rows of matching securities that are not currency holdings)", args[1..].join(" "), count_rows(&o).len())); } }
                         }
                     }
+                    // --no-sort keeps the trades in sheet order, also when --account selects several accounts
+                    if let Ok((true, o, _)) = run(&["--account", ".", "--no-sort"]) {
+                        let mut rd = csv::ReaderBuilder::new().has_headers(true).flexible(true).from_reader(o.as_bytes());
+                        let hdr: Vec<String> = rd.headers().map(|h| h.iter().map(|s| s.to_string()).collect()).unwrap_or_default();
+                        if let (Some(cs), Some(ct), Some(ca), Some(cq)) = (hdr.iter().position(|h| h == "security"), hdr.iter().position(|h| h == "trade date"), hdr.iter().position(|h| h == "action"), hdr.iter().position(|h| h == "shares")) {
+                            let got: Vec<(String, String, String, Decimal)> = rd.records().flatten().filter(|r| !r[cs].ends_with(".FX")).map(|r| (r[cs].to_string(), r[ct].to_string(), r[ca].to_string(), Decimal::from_str(&r[cq]).unwrap_or_default().normalize())).collect();
+                            let wanted: Vec<(String, String, String, Decimal)> = want.iter().filter(|w| !w.security.ends_with(".FX")).map(|w| (w.security.clone(), w.td.clone(), w.action.clone(), w.shares.normalize())).collect();
+                            if got != wanted { let at = got.iter().zip(wanted.iter()).position(|(a, b)| a != b).unwrap_or(got.len().min(wanted.len())); fail(stats, format!("--account . --no-sort: the trades are not in sheet order (first difference at trade {at}: {:?} vs sheet {:?})", got.get(at), wanted.get(at))); }
+                        }
+                    }
                     // (--account patterns are checked below against the joined account string)
                     // --account is a regular expression over '<account type> <account number>' (one string): the whole string, either part
                     let mut accounts: Vec<(String, String)> = e.rows.iter().map(|a| (a.cells["Account Type"].clone(), a.cells["Account #"].clone())).collect(); accounts.sort(); accounts.dedup();
